@@ -357,7 +357,8 @@ theorem C05_pitch_rule (t : Track) (note : Int) (d : UInt16) :
   refine ⟨?_, by decide, ?_, ?_⟩
   · rw [addNote_revEvents]
     simp only [List.head?_cons, Option.map_some, noteEvent, Track.notePitch, Track.inDrumMode]
-    by_cases h : t.drumMode = 0 <;> simp [h]
+    have hw : ∀ x : Int, wrapS16 (wrapS32 x) = wrapS16 x := fun x => by unfold wrapS16 wrapS32; omega
+    by_cases h : t.drumMode = 0 <;> simp [h, hw]
   · intro key hk
     have hset : t.setKeySignature key =
         match keySignatureTable.find? (fun r => strBytes r.2.2.1 == key || strBytes r.2.2.2 == key) with
@@ -436,7 +437,7 @@ tail satisfying the look-ahead condition `DurTail`: the value is default / measu
 dot series, and exactly the spelling is consumed (plus, for a duration that is not written, the
 blanks `get_num` skips: `durSkip`) -/
 theorem C05_read_duration_render (s : MmlState) (hs : Sane s) (d : Dur) (tail : List Nat)
-    (hsuf : suffix s = d.bytes ++ tail) (hn : DurNums (getTrack s) d) (ht : DurTail d tail) :
+    (hsuf : suffix s = d.bytes ++ tail) (hn : DurNums d) (ht : DurTail d tail) :
     readDuration s = .ok (durVal (getTrack s) d).toNat (adv s (d.bytes.length + durSkip d tail)) :=
   readDuration_render s hs d tail hsuf hn ht
 
@@ -476,9 +477,25 @@ def C05_full_statement_parse_render : Prop :=
     ∃ st, readLines 0 [MmlMeaning.renderBytes cmds] MmlState.init = .ok () st
 
 /-- non-vacuity: `o4 >` satisfies `LineNums` on a fresh track -/
-example : LineNums 0 2 Track.new [.octave { v := 4 }, .octUp] := by
-  refine ⟨trivial, ⟨⟨by decide, by decide⟩, by decide⟩, trivial, ?_, trivial⟩
-  show inInt32 (_ + 1) = true
-  decide
+example : LineNums 0 2 Track.new [.octave { v := 4 }, .octUp] :=
+  ⟨trivial, ⟨by decide, by decide⟩, trivial, trivial, trivial⟩
+
+/-- … and so do the numbers at the ends of `int` (no "does not overflow" side condition is left
+since fixes a16b488 / a22a11c): `o-2147483648 < c:2147483647.` -/
+example : LineNums 0 2 Track.new
+    [.octave { v := -2147483648 }, .octDown, .note 2 .none (.frames { v := 2147483647 } 1)] :=
+  ⟨trivial, ⟨by decide, by decide⟩, trivial, trivial, (by decide : 2 < 8), ⟨⟨by decide, by decide⟩, by decide⟩, trivial⟩
+
+/-- the inputs of repository fixes a16b488 / a22a11c as the repaired code reads them (the check
+replays the same lines on the real code): the dotted frame count narrows to 65534 ticks, `(` of
+`INT_MIN` records `VOL_REL 0`, and the octave arithmetic wraps in 32 bits before the 16-bit event field -/
+example :
+    eventsOfLine (strBytes "A c:2147483647.") = [{ type := ev_NOTE, param := 60, on := 65534, off := 0 }] ∧
+    eventsOfLine (strBytes "A (2147483648") = [{ type := ev_VOL_REL, param := 0, on := 0, off := 0 }] ∧
+    eventsOfLine (strBytes "A o-2147483648 c") = [{ type := ev_NOTE, param := -12, on := 24, off := 0 }] ∧
+    eventsOfLine (strBytes "A o2147483647 c") = [{ type := ev_NOTE, param := -24, on := 24, off := 0 }] ∧
+    eventsOfLine (strBytes "A o-2147483647 < c") = [{ type := ev_NOTE, param := -12, on := 24, off := 0 }] ∧
+    eventsOfLine (strBytes "A o2147483647 >> c") = [{ type := ev_NOTE, param := 0, on := 24, off := 0 }] := by
+  decide +kernel
 
 end Ctrmml.C05
